@@ -314,16 +314,11 @@ Definition chk_lookup_first (n : str) : bool :=
 
 (* ------------------------------------------------------------------ *)
 (* entries on which the current fend tree is known to violate a C11 clause
-   (known_findings.d/C11.json); the theorems hold for every other entry, and
-   also for these entries once they are repaired *)
+   (known_findings.d/C11.json, still open); the theorem holds for every other
+   entry, and also for these once they are repaired *)
 Fixpoint mem_str (n : str) (l : list str) : bool :=
   match l with [] => false | x :: r => if str_eqb x n then true else mem_str n r end.
 
-(* sqdm cbdm dm2 dm3: defined as cm^2 / cm^3 *)
-Definition known_family : list str :=
-  [[115;113;100;109]; [99;98;100;109]; [100;109;50]; [100;109;51]].
-(* gal (gallon) / gals (cm/s^2) *)
-Definition known_sing_plur : list str := [[103;97;108]].
 (* T = s@tesla is shadowed by T = 1e12; link = l@1/25 rod by link = 1/100 chain *)
 Definition known_unreachable : list str := [[84]; [108;105;110;107]].
 
@@ -349,10 +344,6 @@ Definition chk_standard (e : str * real * hmap) : bool :=
     | None => false
     end
   end.
-
-(* dyne / dynes / dyn are g*gal with gal = gallon (known_findings.d/C04.json) *)
-Definition known_standards : list str :=
-  [[100;121;110;101]; [100;121;110;101;115]; [100;121;110]].
 
 (* ---- temperatures and other concrete conversions, through the model ---- *)
 Definition with_val (x : Q) (v : value) : value := mkval (Simple x) (v_units v) true true.
